@@ -118,3 +118,29 @@ pub fn vp_sub6(d: &[i16; 12], a: usize) -> (r: [i16; 6])
     requires a + 6 <= 12,
     ensures forall|i: int| 0 <= i < 6 ==> #[trigger] r@[i] == d@[a + i],
 { d[a..a + 6].try_into().unwrap() }
+
+// ---- what parse_struct and parse_lib return (trace-based functional postconditions) ----
+/// element `e` is of the kind its opening record announces
+pub open spec fn kind_ok(e: GdsElement, open: GdsRecord) -> bool {
+    match open {
+        GdsRecord::Boundary => e is GdsBoundary, GdsRecord::Text => e is GdsTextElem, GdsRecord::Path => e is GdsPath, GdsRecord::Box => e is GdsBox,
+        GdsRecord::StructRef => e is GdsStructRef, GdsRecord::ArrayRef => e is GdsArrayRef, GdsRecord::Node => e is GdsNode, _ => false }
+}
+pub open spec fn kinds_ok(es: Seq<GdsElement>, opens: Seq<GdsRecord>) -> bool { es.len() == opens.len() && forall|i: int| 0 <= i < es.len() ==> kind_ok(#[trigger] es[i], opens[i]) }
+/// GRAMMAR STEP of <library> after BGNLIB: LIBNAME sets the name, UNITS the units, BGNSTR appends one structure
+pub open spec fn libb_step(l0: GdsLibraryBuilder, s0: Seq<GdsStruct>, r: GdsRecord, l1: GdsLibraryBuilder, s1: Seq<GdsStruct>) -> bool {
+    match r {
+        GdsRecord::LibName(d) => l1 == (GdsLibraryBuilder { name: Some(d), ..l0 }) && s1 == s0,
+        GdsRecord::Units(d0, d1) => l1.units is Some && (l1.units->0).0 == d0 && (l1.units->0).1 == d1 && l1.name == l0.name && l1.version == l0.version && l1.dates == l0.dates && l1.structs == l0.structs && s1 == s0,
+        GdsRecord::BgnStruct { dates } => l1 == l0 && s1.len() == s0.len() + 1 && s1.drop_last() == s0,
+        _ => false,
+    }
+}
+pub open spec fn libb_fold(tr: Seq<GdsRecord>, l: GdsLibraryBuilder, ss: Seq<GdsStruct>) -> bool decreases tr.len() {
+    if tr.len() == 0 { l.name is None && l.units is None && l.structs is None && ss.len() == 0 }
+    else { exists|l0: GdsLibraryBuilder, s0: Seq<GdsStruct>| libb_fold(tr.drop_last(), l0, s0) && #[trigger] libb_step(l0, s0, tr.last(), l, ss) }
+}
+/// library `x` is what the collected fields build
+pub open spec fn lib_fold(tr: Seq<GdsRecord>, ss: Seq<GdsStruct>, x: GdsLibrary) -> bool {
+    exists|l: GdsLibraryBuilder| #[trigger] libb_fold(tr, l, ss) && l.name is Some && x.name == l.name->0 && l.units is Some && x.units == l.units->0 && x.structs@ == ss
+}
